@@ -385,22 +385,36 @@ func ktColumnsToStruct(r *compiler.Result, name string, columns []goColumn, sett
 	}
 	idSeen := map[int]Field{}
 	nameSeen := map[string]int{}
-	for _, c := range columns {
-		if binding, ok := idSeen[c.id]; ok {
-			gs.JDBCParamBindings = append(gs.JDBCParamBindings, binding)
+	// Columns that share a name are told apart by a suffix. Hand the suffixes
+	// out in id (placeholder number) order, as the other back-ends do, not in
+	// the order in which the placeholders occur in the statement.
+	byID := make([]goColumn, len(columns))
+	copy(byID, columns)
+	sort.SliceStable(byID, func(i, j int) bool { return byID[i].id < byID[j].id })
+	fieldNames := map[int]string{}
+	for _, c := range byID {
+		if _, ok := fieldNames[c.id]; ok {
 			continue
 		}
 		fieldName := MemberName(namer(c.Column, c.id), settings)
 		if v := nameSeen[c.Name]; v > 0 {
 			fieldName = fmt.Sprintf("%s_%d", fieldName, v+1)
 		}
+		fieldNames[c.id] = fieldName
+		nameSeen[c.Name]++
+	}
+	for _, c := range columns {
+		if binding, ok := idSeen[c.id]; ok {
+			gs.JDBCParamBindings = append(gs.JDBCParamBindings, binding)
+			continue
+		}
+		fieldName := fieldNames[c.id]
 		field := Field{
 			Name: fieldName,
 			Type: makeType(r, c.Column, settings),
 		}
 		gs.Fields = append(gs.Fields, field)
 		gs.JDBCParamBindings = append(gs.JDBCParamBindings, field)
-		nameSeen[c.Name]++
 		idSeen[c.id] = field
 	}
 	return &gs
